@@ -15,6 +15,8 @@
     Errors are not distinguished further than [PErr] (the correspondence compares
     Ok-tree / Err / Panic).
 
+    Variant [Fix2] = [Fix] with patches/0016-0018: operands are checked before a builder of [Context] is called ([checked_pattern]), a
+    define-fun whose value has another type than declared and a sort of width zero are errors.
     Variant [Fix] mirrors /repo with patches/0003-0013 applied: the end of the token stream, a string
     literal, an unterminated token and a third parenthesis after [let] are errors; [skip_expr] reports a
     closing parenthesis without an opening one; a plain all-digit token is never looked up in the symbol
@@ -102,15 +104,16 @@ Definition mk_concat (a b : expr) : pres expr :=
   | _, _ => PPanic
   end.
 
-(** [Context::slice]: [assert!(hi >= lo)] holds in every build *)
+(** [Context::slice]: [if lo == 0 && hi + 1 == e.get_bv_type().unwrap()] - the width is only asked for when [lo = 0]
+    (a slice of an array with [lo > 0] is built silently); [assert!(hi >= lo)] holds in every build *)
 Definition mk_slice (e : expr) (hi lo : N) : pres expr :=
-  match bvw e with
-  | Some w =>
-      if (lo =? 0) && (hi + 1 =? w) then POk e
-      else if hi <? lo then PPanic
-      else POk (BVSlice e hi lo)
-  | None => PPanic
-  end.
+  if lo =? 0 then
+    match bvw e with
+    | Some w => if hi + 1 =? w then POk e else POk (BVSlice e hi lo)
+    | None => PPanic
+    end
+  else if hi <? lo then PPanic
+  else POk (BVSlice e hi lo).
 
 Definition mk_zero_extend (e : expr) (by_ : N) : pres expr :=
   if by_ =? 0 then POk e
@@ -259,7 +262,7 @@ Definition early_other (st : option nst) (value : string) : pres pitem :=
   let lookup :=
     match v with
     | Cur => true
-    | Fix => negb (kw_tok value)
+    | Fix | Fix2 => negb (kw_tok value)
     end in
   match st with
   | Some st' =>
@@ -459,6 +462,13 @@ Definition machine_done (rev_stack : list pitem) : option eot :=
   | _ => None
   end.
 
+(** patches/0016: [check_operands] verifies what the builder behind the pattern demands of its operands (exactly the
+    conditions under which the builders of this model panic) and returns an error otherwise *)
+Definition no_panic {A} (x : pres A) : pres A := match x with PPanic => PErr | _ => x end.
+
+Definition checked_pattern (st : nst) (pattern : list pitem) : pres (pitem * nst) :=
+  match v with Fix2 => no_panic (parse_pattern st pattern) | _ => parse_pattern st pattern end.
+
 (** one token; [inr] = the machine returns *)
 Definition step (tok : ltok) (stack : list pitem) (st : nst) (orphan : bool)
   : pres (list pitem * nst * bool) :=
@@ -469,7 +479,7 @@ Definition step (tok : ltok) (stack : list pitem) (st : nst) (orphan : bool)
            | ILet p :: below =>
                (* Cur: debug assertion parens < 2;  Fix (patches/0008): an error *)
                if p <? 2 then POk (ILet (p + 1) :: below, st, orphan)
-               else match v with Cur => PPanic | Fix => PErr end
+               else match v with Cur => PPanic | Fix | Fix2 => PErr end
            | _ => POk (IOpen false :: stack, st, orphan)
            end
   | TkClose =>
@@ -478,7 +488,7 @@ Definition step (tok : ltok) (stack : list pitem) (st : nst) (orphan : bool)
       | _ =>
           match split_at_open stack [] with
           | Some (pattern, let_scope, below) =>
-              pbind (parse_pattern st pattern) (fun r =>
+              pbind (checked_pattern st pattern) (fun r =>
                 let (item, st1) := r in
                 pbind (if let_scope then nst_pop_let st1 else POk st1) (fun st2 =>
                   POk (item :: below, st2, orphan)))
@@ -493,7 +503,7 @@ Definition step (tok : ltok) (stack : list pitem) (st : nst) (orphan : bool)
   | TkEscaped v =>
       if orphan then PErr
       else pbind (lookup_sym st v) (fun e => POk (IExpr e :: stack, st, orphan))
-  | TkStringLit _ => match v with Cur => PPanic | Fix => PErr end     (* patches/0004 *)
+  | TkStringLit _ => match v with Cur => PPanic | Fix | Fix2 => PErr end     (* patches/0004 *)
   | TkComment => POk (stack, st, orphan)
   | TkLexPanic => PPanic
   | TkUnterminated => PErr                                            (* patches/0005 *)
@@ -503,7 +513,7 @@ Definition step (tok : ltok) (stack : list pitem) (st : nst) (orphan : bool)
 Fixpoint run (toks : list ltok) (stack : list pitem) (st : nst) (orphan : bool)
   : pres (eot * nst * list ltok) :=
   match toks with
-  | [] => match v with Cur => PPanic | Fix => PErr end   (* todo!("error message!") / patches/0004 *)
+  | [] => match v with Cur => PPanic | Fix | Fix2 => PErr end   (* todo!("error message!") / patches/0004 *)
   | tok :: rest =>
       match step tok stack st orphan with
       | POk (stack', st', orphan') =>
@@ -522,9 +532,20 @@ Definition parse_expr_internal (toks : list ltok) (st : nst) : pres (expr * nst 
   pbind (parse_eot toks st) (fun r =>
     match r with (EE e, st', rest) => POk (e, st', rest) | (ET _, _, _) => PErr end).
 
+(** patches/0018: [(_ BitVec 0)] is not a sort *)
+Definition ty_posb (t : ty) : bool :=
+  match t with TBV w => negb (w =? 0) | TArr i d => negb (i =? 0) && negb (d =? 0) end.
+
 Definition parse_type (toks : list ltok) (st : nst) : pres (ty * nst * list ltok) :=
   pbind (parse_eot toks st) (fun r =>
-    match r with (ET t, st', rest) => POk (t, st', rest) | (EE _, _, _) => PErr end).
+    match r with
+    | (ET t, st', rest) =>
+        match v with
+        | Fix2 => if ty_posb t then POk (t, st', rest) else PErr
+        | _ => POk (t, st', rest)
+        end
+    | (EE _, _, _) => PErr
+    end).
 
 (** [next_no_comment]: [None] at the end of the input *)
 Fixpoint next_no_comment (toks : list ltok) : pres (option ltok * list ltok) :=
@@ -561,7 +582,7 @@ Fixpoint skip_expr (toks : list ltok) (open_count : N) : pres (list ltok) :=
   | TkUnterminated :: _ => PErr
   | TkOpen :: r => skip_expr r (open_count + 1)
   | TkClose :: r =>
-      if open_count =? 0 then match v with Cur => PPanic | Fix => PErr end    (* patches/0007 *)
+      if open_count =? 0 then match v with Cur => PPanic | Fix | Fix2 => PErr end    (* patches/0007 *)
       else if open_count =? 1 then POk r else skip_expr r (open_count - 1)
   | TkComment :: r => skip_expr r open_count
   | _ :: r => if open_count =? 0 then POk r else skip_expr r open_count
@@ -694,10 +715,10 @@ Definition parse_command_body (top : symtab) (name : string) (toks : list ltok) 
     pbind (parse_type (snd nr) st) (fun r =>
       let '(t, st1, t1) := r in
       pbind (parse_expr_internal t1 st1) (fun r2 =>
-        let '(v, _, rest) := r2 in
-        (* debug_assert_eq!(value type, tpe) *)
-        if ty_eqb (type_of v) t then pbind (mk_symbol (fst nr) t) (fun s => POk (CDefineConst s v, rest))
-        else PPanic)))
+        let '(value, _, rest) := r2 in
+        (* debug_assert_eq!(value type, tpe); patches/0017: an error *)
+        if ty_eqb (type_of value) t then pbind (mk_symbol (fst nr) t) (fun s => POk (CDefineConst s value, rest))
+        else match v with Fix2 => PErr | _ => PPanic end)))
   else if String.eqb name "define-fun" then
     pbind (value_token toks) (fun nr =>
     pbind (skip_open (snd nr)) (fun t1 =>
@@ -705,19 +726,19 @@ Definition parse_command_body (top : symtab) (name : string) (toks : list ltok) 
     pbind (parse_type t2 st) (fun r =>
       let '(t, st1, t3) := r in
       pbind (parse_expr_internal t3 st1) (fun r2 =>
-        let '(v, _, rest) := r2 in
-        if ty_eqb (type_of v) t then pbind (mk_symbol (fst nr) t) (fun s => POk (CDefineConst s v, rest))
-        else PPanic)))))
+        let '(value, _, rest) := r2 in
+        if ty_eqb (type_of value) t then pbind (mk_symbol (fst nr) t) (fun s => POk (CDefineConst s value, rest))
+        else match v with Fix2 => PErr | _ => PPanic end)))))
   else if String.eqb name "check-sat-assuming" then
     match v with
     | Cur => pbind (parse_expr_internal toks st) (fun r => let '(e, _, rest) := r in POk (CCheckSatAssuming [e], rest))
-    | Fix =>
+    | Fix | Fix2 =>
         (* patches/0011: [parse_expr_list]; the tokens after the list are found again by skipping it *)
         pbind (skip_open toks) (fun t1 =>
         pbind (parse_expr_list_rest (S (length t1)) t1 st []) (fun er => POk (CCheckSatAssuming (fst er), snd er)))
     end
   else if String.eqb name "get-unsat-assumptions" then
-    match v with Cur => PErr | Fix => POk (CGetUnsatAssumptions, toks) end          (* patches/0012 *)
+    match v with Cur => PErr | Fix | Fix2 => POk (CGetUnsatAssumptions, toks) end          (* patches/0012 *)
   else if String.eqb name "push" || String.eqb name "pop" then
     pbind (value_token toks) (fun nr =>
       match parse_uint 64 (fst nr) with
@@ -765,7 +786,7 @@ Fixpoint count_parens_fix (s : string) (in_string in_quoted : bool) (acc : Z) : 
   end.
 
 Definition count_parens (s : string) : Z :=
-  match v with Cur => count_parens_cur s 0 | Fix => count_parens_fix s false false 0 end.
+  match v with Cur => count_parens_cur s 0 | Fix | Fix2 => count_parens_fix s false false 0 end.
 
 (** [char::is_ascii_whitespace]: space, tab, line feed, form feed, carriage return *)
 Definition ascii_ws (c : ascii) : bool :=
@@ -802,7 +823,7 @@ Fixpoint rc_balance (cmd : string) (lines : list string) : option (string * list
        | [] => None
        | l :: r =>
            (* Cur pushes a space before reading the next line; patches/0010 removes it *)
-           rc_balance (String.append cmd (match v with Cur => String " "%char l | Fix => l end)) r
+           rc_balance (String.append cmd (match v with Cur => String " "%char l | Fix | Fix2 => l end)) r
        end.
 
 Definition symtab_add (top : symtab) (c : smt_cmd) : symtab :=
@@ -817,11 +838,11 @@ Definition read_command (top : symtab) (lines : list string) : rc_result :=
   | None => RcEof
   | Some (l, rest) =>
       match rc_balance l rest with
-      | None => match v with Cur => RcHang | Fix => RcErr end          (* patches/0009 *)
+      | None => match v with Cur => RcHang | Fix | Fix2 => RcErr end          (* patches/0009 *)
       | Some (cmd, rest') =>
           match parse_command_str top cmd with
           | POk c => RcCmd c (symtab_add top c) rest'
-          | PErr => match v with Cur => RcPanic | Fix => RcErr end     (* patches/0009 *)
+          | PErr => match v with Cur => RcPanic | Fix | Fix2 => RcErr end     (* patches/0009 *)
           | PPanic => RcPanic
           end
       end
